@@ -588,20 +588,35 @@ def _g4(run, M, alg):
             run.check(ok and argok, "G4", cname + ".__init__", f.loc(), "validators %s run on the operand list before the node is built" % names,
                       "%s.__init__ runs %s; expected %s applied to the operand list before super().__init__" % (cname, order, names), stmt="G4:init:" + cname)
     # G4c: flattening keeps every operand (so that validating the flattened list is validating the given one)
-    run.rule("G4c", "_combine_compose_linops keeps every operand that is not itself a Compose (nothing is filtered out before or after validation)")
-    fc = M.func("sigpy.linop._combine_compose_linops")
-    outs = [o for o in alg.vn(fc, loop_hook=unroll_loop).run(fc.body, State({"linops": (A, B, C)})) if o.status == "return"]
+    run.rule("G4c", "the operand list Compose stores keeps every given operand that is not itself a Compose (nothing is filtered out before or after validation)")
+    fc = M.func("sigpy.linop.Compose.__init__")
+    # module-level helpers the constructor routes the operand list through are read, not trusted by name: a helper applied to the
+    # constructor's own `linops` parameter is value-numbered directly over (A, B, C) and its results take the place of the call
+    kept_lists = []     # (path text, value stored in self.linops)
+    outs = [o for o in alg.vn(fc, loop_hook=unroll_loop).run(fc.body, State({"linops": (A, B, C)})) if o.status != "raise"]
+    for o in outs:
+        kept = o.env.get("self.linops")
+        at = kept.single_atom() if isinstance(kept, T.Poly) else None
+        if at is not None and at[0] == "app" and at[1].startswith("fn:"):
+            h = M.func(at[1][3:])
+            sites = [n for n in ast.walk(fc.node) if isinstance(n, ast.Call) and M.resolve_call(fc, n)[0] == "repo" and M.resolve_call(fc, n)[1] is h]
+            if len(sites) == 1 and len(sites[0].args) == 1 and isinstance(sites[0].args[0], ast.Name) and sites[0].args[0].id == "linops" and len(h.params) == 1:
+                for ho in alg.vn(h, loop_hook=unroll_loop).run(h.body, State({h.params[0]: (A, B, C)})):
+                    if ho.status == "return":
+                        kept_lists.append((cond_text(list(o.conds) + list(ho.conds))[:100], ho.ret))
+                continue
+        kept_lists.append((cond_text(o.conds)[:100], kept))
     names = [x.as_term() for x in (A, B, C)]
     dropped = []
-    for o in outs:
-        rt = _t(o.ret)
-        flat = T.show(rt, 4000) if isinstance(rt, T.Poly) else " ".join(T.show(_t(x), 400) for x in (o.ret if isinstance(o.ret, tuple) else ()))
+    for ctext, kept in kept_lists:
+        rt = _t(kept) if kept is not None else None
+        flat = "" if kept is None else (T.show(rt, 4000) if isinstance(rt, T.Poly) else " ".join(T.show(_t(x), 400) for x in (kept if isinstance(kept, tuple) else ())))
         for nm, sym, lv in zip("ABC", names, (A, B, C)):
-            if ("attr:linops(%s)" % T.show(sym, 50)) not in flat and repr(lv) not in flat and not (isinstance(o.ret, tuple) and any(x is lv for x in o.ret)):
-                dropped.append((nm, cond_text(o.conds)[:100]))
-    run.check(bool(outs) and not dropped, "G4c", "_combine_compose_linops", fc.loc(), "every operand (or its own factors) is kept on every path",
-              "_combine_compose_linops drops operand(s) %s: an operand that is left out is neither applied nor shape-checked, so incompatible operands are combined "
-              "instead of rejected" % dropped[:3], stmt="G4c")
+            if ("attr:linops(%s)" % T.show(sym, 50)) not in flat and repr(lv) not in flat and not (isinstance(kept, tuple) and any(x is lv for x in kept)):
+                dropped.append((nm, ctext))
+    run.check(bool(kept_lists) and not dropped, "G4c", "Compose.__init__ operand list", fc.loc(), "every operand (or its own factors) is kept on every path",
+              "Compose.__init__ drops operand(s) %s from self.linops: an operand that is left out is neither applied nor shape-checked, so incompatible operands are "
+              "combined instead of rejected" % dropped[:3], stmt="G4c")
     # Compose must store the flattened list, Diag/Hstack/Vstack obtain shapes from the helpers applied to the children's shapes
     for cname, helper, attr in (("Hstack", "_hstack_params", "ishape"), ("Vstack", "_vstack_params", "oshape")):
         inst = alg.instances(M.cls("sigpy.linop." + cname))[0]
